@@ -144,7 +144,7 @@ func renamed(q *cypher.RegularQuery, vars, params map[string]string) *cypher.Reg
 	return c
 }
 
-var sqlTokenRe = regexp.MustCompile(`'(?:[^']|'')*'|"(?:[^"]|"")*"|[A-Za-z_][A-Za-z0-9_$]*|@[A-Za-z_][A-Za-z0-9_]*|[0-9]+(?:\.[0-9]+)?|::|<>|<=|>=|\|\||->>|->|@>|<@|&&|[^\s]`)
+var sqlTokenRe = regexp.MustCompile("`[^`]*`|" + `'(?:[^']|'')*'|"(?:[^"]|"")*"|[A-Za-z_][A-Za-z0-9_$]*|@[A-Za-z_][A-Za-z0-9_]*|[0-9]+(?:\.[0-9]+)?|::|<>|<=|>=|\|\||->>|->|@>|<@|&&|[^\s]`)
 
 func sqlTokens(sql string) []string { return sqlTokenRe.FindAllString(sql, -1) }
 
